@@ -442,6 +442,43 @@ func ruleGFPolyArith(c *Ctx) {
 				c.expectCond(R, "utils.(*GFPoly).AddOrSubstract/zero-left", ret.Pos(), rc, "gp.Coefficients[0] == 0")
 			case "gp":
 				c.expectCond(R, "utils.(*GFPoly).AddOrSubstract/zero-right", ret.Pos(), rc, "gp.Coefficients[0] != 0 && other.Coefficients[0] == 0")
+			default:
+				// every other return: the computed sum, or a shortcut that hands back one operand's
+				// coefficients - then the other operand is the zero polynomial
+				key := "utils.(*GFPoly).AddOrSubstract/return@" + c.P.Pos(ret.Pos())
+				call, isCall := ret.Results[0].(*ssa.Call)
+				if !isCall || calleeOf(call) == nil || c.P.FuncName(calleeOf(call)) != "utils.NewGFPoly" {
+					c.Check(R, key, ret.Pos(), false, "an operand (the other being zero) or NewGFPoly(field, sum)", v)
+					continue
+				}
+				coef := call.Common().Args[1]
+				if mk != nil && (coef == ssa.Value(mk) || sliceRoot(coef) == ssa.Value(mk)) {
+					continue // the sum (its construction is checked above)
+				}
+				okAll, why := true, ""
+				for _, cs := range n.valueCases(fn, nil, coef, 0) {
+					under := cAnd(rc, cs.cond)
+					if eq, _ := CondEquivalent(under, cFalse); eq {
+						continue
+					}
+					var need *Cond
+					switch cs.val.String() {
+					case "other.Coefficients":
+						need = MustRefCond("gp.Coefficients[0] == 0")
+					case "gp.Coefficients":
+						need = MustRefCond("other.Coefficients[0] == 0")
+					default:
+						if mk == nil {
+							continue // append form: the accumulated result (checked by the append-form obligations)
+						}
+						okAll, why = false, "returns "+cs.val.String()
+						continue
+					}
+					if imp, _, w := CondRelation(under, need); !imp {
+						okAll, why = false, fmt.Sprintf("%s returned when %s (%s)", cs.val, under, w)
+					}
+				}
+				c.Check(R, key, ret.Pos(), okAll, "an operand's coefficients only when the other operand is zero", orOK(why))
 			}
 		}
 	}
@@ -895,4 +932,47 @@ func gfAppendForm(c *Ctx, R string, n *Normer, fn *ssa.Function) {
 // mustRefCondAtomsEq: the condition atom == k for an atom that is not a Go expression.
 func mustRefCondAtomsEq(atom string, k int64) *Cond {
 	return cmpCond(token.EQL, pAtom(atom), pConst(k))
+}
+
+// sliceRoot: the slice a value was produced from by appends / reslicing (through loop-carried
+// variables when every incoming value has the same root).
+func sliceRoot(v ssa.Value) ssa.Value {
+	seen := map[ssa.Value]bool{}
+	var root func(v ssa.Value, depth int) ssa.Value
+	root = func(v ssa.Value, depth int) ssa.Value {
+		if depth > 10 || seen[v] {
+			return nil
+		}
+		seen[v] = true
+		switch x := v.(type) {
+		case *ssa.Slice:
+			return root(x.X, depth+1)
+		case *ssa.Call:
+			if bi, ok := x.Common().Value.(*ssa.Builtin); ok && bi.Name() == "append" {
+				return root(x.Common().Args[0], depth+1)
+			}
+			return v
+		case *ssa.Phi:
+			var r ssa.Value
+			for _, e := range x.Edges {
+				er := root(e, depth+1)
+				if er == nil {
+					continue // back to a value already on the way
+				}
+				if r != nil && er != r {
+					return v
+				}
+				r = er
+			}
+			if r == nil {
+				return v
+			}
+			return r
+		}
+		return v
+	}
+	if r := root(v, 0); r != nil {
+		return r
+	}
+	return v
 }
